@@ -4,8 +4,8 @@ import (
 	"fmt"
 	"sort"
 	"strings"
-	"sync"
 	"time"
+	"verif/simkit"
 )
 
 type Index struct {
@@ -128,7 +128,7 @@ type RowWrite struct {
 }
 
 type Server struct {
-	mu       sync.Mutex
+	mu       simkit.QuietMutex
 	Name     string
 	Version  string
 	schemas  map[string]*Schema
